@@ -119,6 +119,11 @@ func Start(id string) *Check {
 	if o := os.Getenv("VERIF_OUT_ROOT"); o != "" {
 		c.Root = o
 	}
+	// replays of an earlier run with the same (tier, seed) are stale
+	old, _ := filepath.Glob(filepath.Join(c.Root, "replays", c.ID, fmt.Sprintf("%s-seed%d-*.json", c.Tier, c.Seed)))
+	for _, f := range old {
+		_ = os.Remove(f)
+	}
 	fmt.Printf("[%s] tier=%s seed=%d\n", c.ID, c.Tier, c.Seed)
 	return c
 }
